@@ -97,3 +97,59 @@ type Neg struct {
 func (All) isRule() {}
 func (Any) isRule() {}
 func (Neg) isRule() {}
+
+// Figure is made of two embedded interfaces and declares no method itself.
+type Figure interface {
+	Drawable
+	Sized
+}
+
+type Drawable interface {
+	isDrawable()
+}
+
+type Sized interface {
+	isSized()
+}
+
+type Disc struct {
+	R int
+}
+
+type Box struct {
+	W, H int
+}
+
+func (Disc) isDrawable() {}
+func (Disc) isSized()    {}
+func (Box) isDrawable()  {}
+func (Box) isSized()     {}
+
+type Canvas struct {
+	Main Figure
+}
+
+// Value has two different named maps of itself among its members, a named
+// list, and a leaf that sorts first.
+type Value interface {
+	isValue()
+}
+
+type Atom struct {
+	N int
+}
+
+type Dict map[string]Value
+
+type Sparse map[int]Value
+
+type Series []Value
+
+func (Atom) isValue()   {}
+func (Dict) isValue()   {}
+func (Sparse) isValue() {}
+func (Series) isValue() {}
+
+type Holder struct {
+	V Value
+}
